@@ -1,5 +1,7 @@
 #!/usr/bin/env python3
-"""Teeth test: apply one textual mutation to /repo, build the harness (under the cargo lock), revert
+"""(The two-hunk mutation `hoist_last_unsol_record` is kept as hoist_last_unsol_record.patch next to this file:
+`git -C /repo apply <patch>`, build, `git -C /repo apply -R <patch>`.)
+Teeth test: apply one textual mutation to /repo, build the harness (under the cargo lock), revert
 the file at once, then run the full check of the named properties with the mutated binary."""
 import os, shutil, subprocess, sys, hashlib, io, contextlib, importlib
 sys.path.insert(0, "/verif/tools"); sys.path.insert(0, "/verif/tools/props")
